@@ -23,7 +23,7 @@ let run (line : string) : string =
       let sl = b01 (segments_link (cfg_compact true) p toks) ^ b01 (segments_link (cfg_pretty tab true true) p toks)
                ^ b01 (segments_link (cfg_pretty [] false true) p toks) in
       let ic = b01 (idents_covered (cfg_compact true) p toks) ^ b01 (idents_covered (cfg_pretty tab true true) p toks) in
-      Printf.sprintf "errs=%d m=%s wf=%s mL=%s wfL=%s tp=%s ct=%s pc=%s sl=%s ic=%s lt=%s un=%s rt=%s ne=%s" (min 1 (List.length r.pr_errors)) (b01 (m_program p toks)) (b01 (wf_program p))
+      Printf.sprintf "errs=%d m=%s wf=%s mL=%s wfL=%s tp=%s ct=%s pc=%s sl=%s ic=%s lt=%s un=%s rt=%s ne=%s rp=%s ts=%s id=%s" (min 1 (List.length r.pr_errors)) (b01 (m_program p toks)) (b01 (wf_program p))
         (b01 (m_programL p toks)) (b01 (wf_programL p)) (b01 (token_preserving p toks)) (b01 ct) (b01 pc) sl ic (b01 (match toks with t :: _ -> t.t_comments <> [] | [] -> false))
         (let un cfg = (compile cfg p).r_code = (run_wops cfg (write_program p)).w_buf in b01 (un (cfg_pretty tab true true)) ^ b01 (un (cfg_pretty [] false true)))
         (match reparse_compact p with
@@ -33,3 +33,16 @@ let run (line : string) : string =
          match parse_tokens (cfg_with [SI_Probe (z 1)] [EI_Probe (z 2); EI_Reentrant; EI_Probe (z 3)]) toks with
          | None -> "N"
          | Some r3 -> b01 (nesting_reflected r3.pr_program r3.pr_final.ps_log) ^ "/" ^ string_of_int (List.length r3.pr_final.ps_log))
+        (let rp cfg = match tokenize (compile cfg p).r_code with
+           | None -> "N"
+           | Some ts -> (match parse_tokens cfg_default ts with
+              | None -> "N"
+              | Some r2 -> b01 (r2.pr_errors = [] && shape_program r2.pr_program = shape_program p)) in
+         rp (cfg_pretty tab true false) ^ rp (cfg_pretty [] true true) ^ rp (cfg_pretty tab false false))
+        (b01 (literals_trim_safe toks))
+        (let idem cfg = match tokenize (compile cfg p).r_code with
+           | None -> "N"
+           | Some ts -> (match parse_tokens cfg_default ts with
+              | None -> "N"
+              | Some r2 -> b01 ((compile cfg r2.pr_program).r_code = (compile cfg p).r_code)) in
+         idem (cfg_pretty tab true false) ^ idem (cfg_pretty [] true false) ^ idem (cfg_compact false))
